@@ -147,6 +147,7 @@ class Report:
             "known_findings_matched": {k: v["n"] for k, v in self.known_hits.items()},
         }
         cov.update(self.extra)
+        cov["tree_checked"] = util.repo_tree_id()
         ev = {
             "property_id": self.prop, "tier": self.tier, "seed": util.seed(), "level": self.level,
             "coverage": cov, "assumptions": self.assumptions, "wall_s": self.timer.s(),
